@@ -11,40 +11,40 @@ CLAIMS = {
             'technique': 'typestate walk over verifier CFGs, decision-table extraction vs frozen specification tables, token-level mirror comparison, sign algebra'},
     'C06': {'text': 'every detector path writes its flag column (MUSTFLAG) through the null-aware helper (NULLFLAG); per arm the detector '
                     'predicate is the verifier predicate (AGREE); stale output removed unconditionally before verification and writer only '
-                    'under failures > 0 (OUTFILE); stores into the input frame only under detect_in_place (INPLACE); rows numbered before filtering (ROWNUM); every flag-column name built is recognised by the output stage, for every kind (VERNAME); internal-error freedom of detect_df.',
+                    'under failures > 0 (OUTFILE); stores into the input frame only under detect_in_place (INPLACE); rows numbered before filtering (ROWNUM); every flag-column name built is recognised by the output stage, for every kind (VERNAME); detect_df sets up its verifier as verify_df does and forwarded options are named further down (SAMESETUP); type repair on every path for dictionary and path alike (SAMEPREP); internal-error freedom of detect_df.',
             'technique': 'typestate must-pass-through walk, decision-table agreement between sibling implementations, guard-chain queries'},
     'C03': {'text': 'the sampling loop is never left with stale results (LOOP); every character reaching the fine classifier gets a class '
                     'whose regex contains it, over all code points and extra-letter configurations (CLASS); output-dialect classes contain '
                     'the internal ones for Python-interpreted dialects (DIALECT); escape discipline (ESC); escaped_bracket denotes exactly '
-                    'its input set on all special-character combinations (BRACKET); plusify only widens (WIDEN); stdlib re as the engine (ENGINE); both category sets built together (CATSYNC); sampling caps never limit which characters and run patterns are seen (EVIDENCE); internal-error freedom of extract/pdextract.',
+                    'its input set on all special-character combinations (BRACKET); plusify only widens (WIDEN); stdlib re as the engine (ENGINE); both category sets built together (CATSYNC); sampling caps never limit which characters and run patterns are seen, the cap counter counts distinct strings (EVIDENCE); clean() drops exactly what the options say, over options x representative strings (DISCARD); whitespace padding depends on the strip counter alone (WSPAD); internal-error freedom of extract/pdextract.',
             'technique': 'typestate walk, character-set algebra over all Unicode code points, abstract interpretation of the pure string helpers on enumerated inputs + regex parse-tree inspection'},
     'C13': {'text': 'every stored expression comes from vrle2re/rle2re whose returns pass the ^...$ wrapper (ANCHOR); the tag flag is only '
                     'forwarded or selects group(X) vs X (TAG); quantifier rendering parses and admits min..max (QUANT); escape and '
-                    'bracket construction (ESC, BRACKET); rendered expressions are never ranked as text on the extraction path (TAGFREE); examples are observed values, not declared categorical levels (OBSERVED).',
+                    'bracket construction (ESC, BRACKET); rendered expressions are never ranked as text on the extraction path (TAGFREE); examples are observed values, not declared categorical levels (OBSERVED); padding and strip counter (WSPAD, STRIPCOUNT); both category sets built together (CATSYNC).',
             'technique': 'def-use/shape checks on the AST, abstract interpretation of fragment2re/escaped_bracket on enumerated inputs + regex parse-tree inspection'},
     'C14': {'text': 'every random.* call lies inside a seeded, restored region on every call chain from the entry points (PRNG); PRNGState is '
-                    'followed at once by try/finally restore and seeds on `is not None` (RESTORE); set-to-sequence conversions are sorted (ORDER); memo key complete (MEMO); no entry point changes a container it was handed (ARGMUT); caps never limit what is seen (EVIDENCE); Series examples are observed values (OBSERVED).',
+                    'followed at once by try/finally restore and seeds on `is not None` (RESTORE); set-to-sequence conversions are sorted (ORDER); memo key complete (MEMO); no entry point changes a container it was handed (ARGMUT); caps never limit what is seen (EVIDENCE); Series examples are observed values (OBSERVED); every module-level memo is keyed by all parameters its value depends on (MEMO); the caller's seed reaches PRNGState unconditionally (SEEDFWD).',
             'technique': 'reverse call-graph chain enumeration with region membership, statement-adjacency check, def-use, interprocedural may-alias walk for in-place mutation'},
     'C04': {'text': 'actual and expected sides are transformed identically (SYM) and split into lines by the same primitive (SPLIT); the '
                     'failure count reaches the assertion (PROP); no handler swallows a failure (EXC); the permutation allowance is bounded '
-                    'by max_permutation_cases (PERM); removal is decided on un-normalised lines (RAWREMOVE).',
+                    'by max_permutation_cases (PERM); removal is decided on un-normalised lines (RAWREMOVE); no state kept on the comparison object between checks (STATELESS, NOCACHE); names and extensions compared whole (WHOLESTR).',
             'technique': 'near-mirror clone comparison under role renaming, def-use closures, guard-chain queries'},
     'C05': {'text': 'actual and reference frames are transformed identically (SYM); everything reported also fails the check (RFAIL); the '
                     'failure count reaches the assertion (PROP); no option leaks between calls through instance state (STATE); the order '
-                    'check iterates each frame\'s own columns (ORDER); no memoised frames (NOCACHE); wrappers forward every shared option (FORWARD); ' + IEF + ' the DataFrame assertions and check_dataframe.',
+                    'check iterates each frame\'s own columns (ORDER); no memoised frames (NOCACHE); wrappers forward every shared option under its own name (FORWARD); categoricals converted before any sort (CATFIRST); ' + IEF + ' the DataFrame assertions and check_dataframe.',
             'technique': 'near-mirror clone comparison, control+data dependence closure of the returned failure count, call-graph reachability + definite-assignment walk'},
     'C07': {'text': 'discovery thresholds admit exactly the documented sets (THRESH); the discovered sign class is the strongest that holds '
                     'over the six orderings of (min, max, 0) (STRONG); min is computed with min/MIN and max with max/MAX everywhere, no '
-                    'query truncates (AGG); nothing but the type is emitted for absent data (ABSENT); lengths counted by len() in characters (LENCHARS); no process-wide memo in the handlers (NOSHARED); statistics from observed values, never declared categorical levels (OBSERVED); the dtype-name decision chain classes every integer/float/bool/datetime dtype name (DTYPES).',
+                    'query truncates (AGG); nothing but the type is emitted for absent data (ABSENT); lengths counted by len() in characters (LENCHARS); no process-wide memo in the handlers (NOSHARED); statistics from observed values, never declared categorical levels (OBSERVED); the dtype-name decision chain classes every integer/float/bool/datetime dtype name (DTYPES); numbers never used as bare conditions (ZERO).',
             'technique': 'guard-chain queries, finite-domain (sign) abstract evaluation of the decision chains, call-graph closure over SQL literals'},
     'C08': {'text': 'SQL quoting discipline per template slot on the SQLite path and delimiter doubling in the quoting helper (SQLQ); '
                     'empty-join guard (EMPTYJOIN); closed-table lookups (TOTAL); unguarded parsing of stored text (EXC); REGEXP callback '
-                    'flags (REXFLAGS); SQL aggregates (AGG); no process-wide memo (NOSHARED); no transaction control or data-changing SQL reachable from the entry points (READONLY); ' + IEF + ' discover_db_table/verify_db_table.',
+                    'flags (REXFLAGS); SQL aggregates (AGG); no process-wide memo (NOSHARED); no transaction control or data-changing SQL reachable from the entry points (READONLY); statistics never tested for truthiness (ZERO); ' + IEF + ' discover_db_table/verify_db_table.',
             'technique': 'template-slot taint classification (def-use), guard chains, call-graph reachability, definite-assignment walk'},
     'C09': {'text': 'writer keys are constructor parameters and tables share one tuple (KEYS); every emitted value passes the date stringifier '
                     '(DATEPATH); writer date language is included in the reader regexes, exact integer conversion (DATELANG); date-only text '
                     'keeps its type (DATETYPE); null-valued constraints load (NULLG); unknown kinds are inert, stored values tested against '
-                    'None only (UNKNOWN); all entry points funnel into one loader (ENTRY); to_json shape and newline-only line splitting (STRIP); constructor defaults never assigned after load() (PRESET); no key-order dependence in the loader (KEYORDER); every constraint constructor returns for a null value (NULLG, by abstract evaluation).',
+                    'None only (UNKNOWN); all entry points funnel into one loader (ENTRY); to_json shape and newline-only line splitting (STRIP); constructor defaults never assigned after load() (PRESET); no key-order dependence in the loader (KEYORDER); every constraint constructor returns for a null value (NULLG, by abstract evaluation); no cached parse of a .tdda file (NOCACHE); path and dictionary forms prepared alike (SAMEPREP).',
             'technique': 'registry/key-set comparison, return-expression shape checks, guard chains, regular-language inclusion on extracted regex constants'},
     'C10': {'text': 'every effect on a reference path is under the true arm of _should_regenerate(own kind) on every call chain '
                     '(GUARD, KINDFWD: own kind forwarded and never rewritten before use); normal-mode effects write only under tmp_dir (NOWRITE); only set_regeneration stores into the '
@@ -54,24 +54,24 @@ CLAIMS = {
     'C11': {'text': 'date construction from parsed numbers is guarded (EXC); every slot of the script template gets text of the class its '
                     'Python context needs (TEMPLATE); every write/delete stays under the reference directory or is the script (EFFECTS); '
                     'one test per file on every path (MUSTEMIT); emitted path expressions denote the original path (JOINREPR); dynamic '
-                    'attribute names exist (ATTRS); snapshot timestamps of one kind (SNAPSHOT); a fallback encoding is recorded before the lines are returned (ENCODING); wildcard patterns are removed from the reference files on every path (GLOBS); ' + IEF + ' gentest()/gentest_wrapper().',
+                    'attribute names exist (ATTRS); snapshot timestamps of one kind (SNAPSHOT); a fallback encoding is recorded before the lines are returned (ENCODING); wildcard patterns are removed from the reference files on every path (GLOBS); captured output split with splitlines (SPLIT); ' + IEF + ' gentest()/gentest_wrapper().',
             'technique': 'template-slot context classification, effect summaries with provenance, typestate walk, abstract interpretation of as_join_repr on a path grid'},
     'C12': {'text': 'one assertion per stream/file, each stream test exactly under its flag (ONEASSERT); actual and reference arguments come '
                     'from different sources (ROLES); the instantiated header runs the command once after removing old outputs and its tests '
                     'read that result (ORDER); exit code and files of run 1 (EXITCODE); unique test names (UNIQUE); strict decoding (STRICT); '
-                    'exclusions only from run differences and machine-specific strings (EXCLPROV); cleaned files = tested files (CLEANSET).',
+                    'exclusions only from run differences and machine-specific strings (EXCLPROV); cleaned files = tested files (CLEANSET); computed environment facts are the ones read (DEADATTR); names and machine-specific strings handled whole (WHOLESTR).',
             'technique': 'typestate walk, straight-line def-use closures, parsing the instantiated script template with ast'},
     'C15': {'text': 'artefacts are written only under tmp_dir with relative-safe names (TMPDIR), only under a difference predicate or '
                     'a missing-file handler (ONLYFAIL); actual-side and expected-side bookkeeping are exact mirrors (MIRROR); '
-                    'suggested commands name caller paths or files written (CMDFILES); the raw artefact is written from the caller\'s own lines (RAWLINES); a configured tmp_dir survives every outcome of the constructor\'s other tests (TMPCFG).',
+                    'suggested commands name caller paths or files written (CMDFILES); the raw artefact is written from the caller\'s own lines (RAWLINES); a configured tmp_dir survives every outcome of the constructor\'s other tests (TMPCFG); empty content is content (EMPTY); one guide for both post-processed files (SAMEGUIDE).',
             'technique': 'effect summaries with provenance + def-use closure of guards + near-mirror clone comparison'},
     'C16': {'text': 'the date-format translation is correct on every documented field alone, every ordered pair with every separator and the '
                     'documented compact forms (CHAIN); dialect keys are W3C keys stored under their own names, numeric options not '
-                    'defaulted with `or` (DKEYS); type tables closed and equal to the documented mapping, no date type reaches dtype (TYPES); metadata never memoised (NOCACHE); RE_ISO8601 accepts only ISO 8601 layouts (ISOLANG, language inclusion); provenance values only fill keys the dialect lacks (EXPLICIT).',
+                    'defaulted with `or` (DKEYS); type tables closed and equal to the documented mapping, no date type reaches dtype (TYPES); metadata never memoised (NOCACHE); RE_ISO8601 accepts only ISO 8601 layouts (ISOLANG, language inclusion); provenance values only fill keys the dialect lacks (EXPLICIT); declared columns protected from int-upgrading whatever the options (DECLARED); titles kept as given (TITLES); per-column contributions accumulated (ACCUM).',
             'technique': 'abstract interpretation of the translation function on ~1100 composed formats, registry/key-set comparison'},
     'C17': {'text': 'every command-line key is a named parameter on its forwarding chain (FLAGS); front ends reach load_df and the library '
                     'function, no second implementation (SAMEAPI); error arms exit non-zero before any effect (EXIT); looked-up values are '
-                    'used (DEFUSE); rows numbered before filtering (ROWNUM); front ends write nothing themselves (NOWRITE); date writer/reader agreement (DATELANG); input-file extension tests on the lower-cased extension (EXTCASE); options tested with `is None` have no parser default (DEFAULTS); ' + IEF +
+                    'used (DEFUSE); rows numbered before filtering (ROWNUM); front ends write nothing themselves (NOWRITE); date writer/reader agreement (DATELANG); input-file extension tests on the lower-cased extension (EXTCASE); options tested with `is None` have no parser default (DEFAULTS); the front end takes every documented argument order (APPLICABLE); calculator statistics from observed values (OBSERVED); ' + IEF +
                     ' the three Pandas front-end methods.',
             'technique': 'registry comparison across **kwargs chains, statement-order and guard-chain checks, path-aware def-use, call-graph reachability'},
     'C19': {'text': 'write-back index matches the slice offset (ARGVIDX); tag attribute agrees between decorator, loader and pytest filter, all '
@@ -82,7 +82,7 @@ CLAIMS = {
         'text': 'each emitted constraint comes from the statistic its verifier reads and the default arm holds at equality; sign closure '
                 'over the six orderings (CLOSE, incl. the exact disjunct of the fuzzy comparators); the guarantees of rexpy for rex constraints (REX-*: the C03 rules); one cache key / one classifier / one flag set on both sides (SHARED); no store into '
                 'the verified frame from a verifier (CACHE); date writer language is included in the reader regexes, group counts, '
-                'integer-only conversion (DATELANG); the .tdda text is split on newline only (STRIP); ' + IEF + ' discover_df/verify_df/detect_df/to_json/load.',
+                'integer-only conversion (DATELANG); the .tdda text is split on newline only (STRIP); statistics from observed values only (OBSERVED); ' + IEF + ' discover_df/verify_df/detect_df/to_json/load.',
         'technique': 'def-use closures between sibling implementations, finite-domain evaluation, regular-language inclusion on extracted regex constants, definite-assignment walk',
     },
 }
